@@ -204,13 +204,15 @@ def _method(cfg):
 
 
 def roots(ctx, rec, only_refresh=True):
-  """Root oracle on every root installed at this tick."""
+  """Root oracle on every root installed at this tick: every accepted root on
+  a refresh tick, and every preconditioner whose bytes changed on any tick
+  (whatever is stored must be an inverse root of the stored statistics)."""
   w, view = rec['world'], rec['view']
   cfg, t = w.cfg, rec['t']
   prev, new = rec['prev'], rec['new']
   mk = _modekey(rec)
   pt, dont_care = ref.precond_tick(cfg, w.lr_spec, t)
-  if not pt or dont_care:
+  if dont_care:
     return
   method = _method(cfg)
   if method in ('lowrank', 'lobpcg'):
@@ -225,10 +227,12 @@ def roots(ctx, rec, only_refresh=True):
       err = _err(view, new, i, j)
       if err is None or not (np.isfinite(err) and err < thr):
         continue
-      if _bytes_eq(view.precond_raw(prev, i, j), view.precond_raw(new, i, j)) \
-          and t > 0 and not rec.get('force_roots'):
-        # unchanged bytes: either rejected or recomputed to the same value
-        pass
+      changed = not _bytes_eq(view.precond_raw(prev, i, j),
+                              view.precond_raw(new, i, j))
+      if not pt and not changed:
+        continue
+      if not pt:
+        ctx.probe('root_changed_off_refresh')
       S = view.stat(new, i, j)
       X = view.precond(new, i, j)
       lam = retries = None
@@ -247,7 +251,7 @@ def roots(ctx, rec, only_refresh=True):
       status, ratio, detail = root_oracle.check_root(
           S, X, p, err, eps, rel, method, lam, retries, u=u,
           u_compute=(2.0 ** -53 if x64 else U32))
-      pred = 'on_refresh_tick'
+      pred = 'on_refresh_tick' if pt else 'installed_off_refresh'
       if i in rec['poisoned']:
         pred = 'nonfinite_or_offrange_history'
       ctx.ev('root_residual', status, ratio)
